@@ -214,6 +214,43 @@ def check_one(ts, fresh_cls, label, build, fails, tsname):
         got = outcome(lambda: ts.infer(x))
         if got[0] == "ok" and (paths_of(got[1][1]) != want_p or canon(got[1][0]) != want_data):
             add("C10", "infer-depends-on-history", "infer gives %s on the long-lived typeset, %s on a fresh one" % (paths_of(got[1][1]), want_p), also=["C03", "C12"])
+    # --- C15: the typeset made of exactly the types on the path (a parent-closed chain, every prefix of it too) gives the
+    # projection of this answer: the walk must be able to visit EVERY type of a typeset
+    if not is_frame and ref_d[0] == "ok" and ref_i[0] == "ok":
+        from visions.typesets import VisionsTypeset
+        dpath = list(ref_d[1][1])
+        for k in range(1, len(dpath) + 1):
+            sub = outcome(lambda: VisionsTypeset(set(dpath[:k])))
+            if sub[0] != "ok":
+                continue
+            got = outcome(lambda: [str(t) for t in sub[1].detect(build())[1]])
+            want_k = [str(t) for t in dpath[:k]]
+            if got[0] == "ok" and got[1] != want_k:
+                add("C15", "chain-typeset-detect", "A = %s (a parent-closed subset of %s) detects along %s; the deepest types of B's path %s that belong to A are %s"
+                    % (want_k, tsname, got[1], [str(t) for t in dpath], want_k), also=["C01"])
+                break
+        ipath = list(ref_i[1][1])
+        closure = set(ipath)
+        g = fresh.base_graph
+        for t in list(closure):
+            cur = t
+            while True:
+                preds = list(g.predecessors(cur))
+                if not preds:
+                    break
+                cur = preds[0]
+                closure.add(cur)
+        sub = outcome(lambda: VisionsTypeset(closure))
+        if sub[0] == "ok":
+            got = outcome(lambda: [str(t) for t in sub[1].infer(build())[1]])
+            if got[0] == "ok" and got[1] != [str(t) for t in ipath] and len(fresh.relation_graph.nodes) > len(closure):
+                # (only relations among the types of the path can be taken in A: its walk must be the same walk)
+                import networkx as nx
+                gb = fresh.relation_graph
+                last_a = [t for t in gb.nodes if str(t) == got[1][-1]]
+                if not last_a or not nx.has_path(gb, last_a[0], ipath[-1]) or got[1] != [str(t) for t in ipath][:len(got[1])]:
+                    add("C15", "chain-typeset-infer", "A = %s infers along %s, B = %s along %s: not a prefix of it" % (sorted(map(str, closure)), got[1], tsname, [str(t) for t in ipath]),
+                        also=["C03"])
     # --- the caller edits the container in place and asks again (same typeset instance)
     if edit_in_place(x):
         z = copy.deepcopy(x)
